@@ -38,7 +38,7 @@ B = [
     ("c128-never-code-c", "code128/encode.go", "func shouldUseCTable(nextRunes []rune, curEncoding byte) bool {\n", "func shouldUseCTable(nextRunes []rune, curEncoding byte) bool {\n\tif len(nextRunes) > 0 && nextRunes[0] != FNC1 && len(nextRunes) < 1000 {\n\t\treturn false\n\t}\n",
      "digits are never packed in code set C (longer but valid symbols; the property does not ask for the shortest symbol)"),
     ("pdf-no-numeric-compaction", "pdf417/highlevel.go", "min_numeric_count = 13", "min_numeric_count = 100000", "long digit runs stay in text compaction: another valid high-level encoding"),
-    ("aztec-no-punct-latch", "aztec/highlevel.go", "if !charInCurrentTable || mode == s.mode || mode == mode_digit {", "if mode != mode_punct && (!charInCurrentTable || mode == s.mode || mode == mode_digit) {",
+    ("aztec-no-punct-latch", "aztec/highlevel.go", "if !charInCurrentTable || mode == s.mode || mode == mode_digit {", "if (mode != mode_punct || s.mode == mode_punct) && (!charInCurrentTable || mode == s.mode || mode == mode_digit) {",
      "the search never latches to PUNCT (shifts and binary shift are used instead): another valid high-level encoding"),
     ("qr-penalty-bound-noop", "qr/encoder.go", "\tlowestPenalty := ^uint(0)\n", "\tlowestPenalty := ^uint(0) / 2\n", "pure no-op on the penalty bound (scores never get near it)"),
     ("codabar-precompiled-regexp", "codabar/encoder.go", "checkValid, _ := regexp.Compile(`[ABCD][0123456789\\-\\$\\:/\\.\\+]*[ABCD]$`)", "checkValid := regexp.MustCompile(`^[ABCD][0123456789\\-\\$\\:/\\.\\+]*[ABCD]$`)",
